@@ -158,10 +158,19 @@ def ext_strategy(kind, tier):
 def ext_check(kind, case, rec):
     fem = import_felupe()
     mesh, info = gm.build(case["mesh"])
-    region = gm.region(mesh, info)
     rng = np.random.default_rng(case["seed"])
     dim = info["dim"]
+    if case["seed"] % 3 == 1:
+        # a point without cells somewhere in the numbering (a control point): the averages at the other points do not see it
+        P0 = np.asarray(mesh.points)
+        k_ = int(rng.integers(0, len(P0)))
+        C0 = np.asarray(mesh.cells)
+        mesh = fem.Mesh(np.insert(P0, k_, P0.mean(0), axis=0), np.where(C0 >= k_, C0 + 1, C0), mesh.cell_type)
+        rec.label("mesh-with-a-point-without-cells")
+    region = gm.region(mesh, info)
     X = np.array(mesh.points)
+    used = np.zeros(len(X), bool)
+    used[np.unique(np.asarray(mesh.cells))] = True
     ts = tshape(case["order"], 2)
     size = int(np.prod(ts)) if ts else 1
     affine = case["mesh"]["jitter"] == 0
@@ -180,7 +189,7 @@ def ext_check(kind, case, rec):
     rec.nontrivial = mesh.ncells >= 2
     if case["average"]:
         ex = np.asarray(fem.tools.extrapolate(vq, region)).reshape(len(X), size)
-        rec.close("extrapolate=nodal-values", float(np.abs(ex - vals).max()) / max(1.0, float(np.abs(vals).max())), 1e-10)
+        rec.close("extrapolate=nodal-values", float(np.abs(ex - vals)[used].max()) / max(1.0, float(np.abs(vals).max())), 1e-10)
     else:
         ex = np.asarray(fem.tools.extrapolate(vq, region, average=False)).reshape(-1, size)
         ref = vals[np.asarray(mesh.cells).ravel()]
@@ -197,7 +206,8 @@ def ext_check(kind, case, rec):
         for a, p in enumerate(cell):
             acc[p] += ww[:, a, c]
             cnt[p] += 1
-    rec.close("topoints=mean-over-attached-cells", float(np.abs(tp - acc / cnt[:, None]).max()), 1e-12)
+    cnt[~used] = 1.0  # (points without cells: nothing to average, not compared)
+    rec.close("topoints=mean-over-attached-cells", float(np.abs(tp - acc / cnt[:, None])[used].max()), 1e-12)
     tpd = np.asarray(fem.topoints(w, region, average=False)).reshape(-1, size)
     refd = np.array([ww[:, a, c] for c in range(mesh.ncells) for a in range(ppc)])
     rec.close("topoints(average=False)=disconnected-order", float(np.abs(tpd - refd).max()) if tpd.shape == refd.shape else float("inf"), 0.0)
@@ -208,7 +218,7 @@ def ext_check(kind, case, rec):
     for c, cell in enumerate(np.asarray(mesh.cells)):
         for p in cell:
             acc[p] += cm[:, c]
-    rec.close("topoints(mean=True)=cell-means", float(np.abs(tpm - acc / cnt[:, None]).max()), 1e-12)
+    rec.close("topoints(mean=True)=cell-means", float(np.abs(tpm - acc / cnt[:, None])[used].max()), 1e-12)
 
 
 # ---------------------------------------------------------------------------------------------------------------
